@@ -120,8 +120,7 @@ class Lazy:
     def __pow__(self, n): return Lazy(self.shape, lambda idx, f=self.fn: S(f(idx)) ** n)
     def __neg__(self): return Lazy(self.shape, lambda idx, f=self.fn: -S(f(idx)))
 
-    def __array_ufunc__(self, ufunc, method, *inputs, **kwargs):
-        raise Unsupported(f"numpy ufunc {ufunc.__name__} on a lazy symbolic array")
+    __array_ufunc__ = None
 
     def __array_function__(self, func, types, args, kwargs):
         raise Unsupported(f"numpy function {func.__name__} on a lazy symbolic array")
@@ -168,6 +167,9 @@ def install_view_ops():
     """arithmetic on Views yields Lazy expressions (numpy semantics: a new array)."""
     def mk(op, swap=False):
         def f(self, o):
+            if isinstance(o, _np.ndarray) and o.ndim:
+                me = self.to_object_array()  # small concrete window against an object array
+                return op(o, me) if swap else op(me, o)
             a = as_lazy(self)
             r = a._bin(o, (lambda x, y: op(y, x)) if swap else op)
             return r
@@ -326,17 +328,23 @@ class SymNp:
         return _np.flipud(a)
 
     # -- element-wise -----------------------------------------------------------------------------
-    def _ew(self, name, a):
+    def _ew(self, name, a, out=None):
         if isinstance(a, (Lazy, View)):
             l = as_lazy(a)
-            return Lazy(l.shape, lambda idx: getattr(S(l.fn(idx)), name)())
+            r = Lazy(l.shape, lambda idx: getattr(S(l.fn(idx)), name)())
+            if out is not None:
+                out[...] = r
+                return out
+            return r
+        if out is not None:
+            raise Unsupported("out= with concrete operands")
         if isinstance(a, Sym):
             return getattr(a, name)()
         return getattr(_np, name)(a)
 
-    def fabs(self, a): return self._ew("fabs", a)
-    def abs(self, a): return self._ew("fabs", a)
-    def absolute(self, a): return self._ew("fabs", a)
+    def fabs(self, a, out=None): return self._ew("fabs", a, out)
+    def abs(self, a, out=None): return self._ew("fabs", a, out)
+    def absolute(self, a, out=None): return self._ew("fabs", a, out)
     def sqrt(self, a): return self._ew("sqrt", a)
     def log(self, a): return self._ew("log", a)
     def sin(self, a): return self._ew("sin", a)
@@ -357,9 +365,12 @@ class SymNp:
         return _np.minimum(a, b)
 
     # -- reductions -------------------------------------------------------------------------------
-    def sum(self, a, axis=None, **kw):
+    def sum(self, a, axis=None, out=None, **kw):
         if not isinstance(a, (Lazy, View)):
-            return _np.sum(a, axis=axis, **kw)
+            return _np.sum(a, axis=axis, out=out, **kw) if out is not None else _np.sum(a, axis=axis, **kw)
+        if out is not None:
+            out[...] = self.sum(a, axis=axis, **kw)
+            return out
         l = as_lazy(a)
         if axis is None or kw:
             raise Unsupported("np.sum over all cells of a symbolic-extent field")
